@@ -181,6 +181,26 @@ class Describer(actors.Party):
         return {"op": "update", "b": r.choice(self.buckets), "fields": actors.update_fields(r)}
 
 
+class Rejecter(actors.Party):
+    """Writes that the store must reject (through the handle of a bucket deleted since), issued while other
+    acknowledged inserts may still be buffered."""
+
+    name = "rejecter"
+
+    def __init__(self, r, cfg):
+        super().__init__(r, cfg)
+        self.first = True
+
+    def step(self):
+        r = self.r
+        if self.first:
+            self.first = False
+            return [{"op": "create", "b": "tmp", "meta": gen.meta(r, wild=False)}, {"op": "delete_bucket", "b": "tmp"}]
+        if r.random() < 0.5:
+            return {"op": "insert_stale", "b": "tmp", "ev": self.ev()}
+        return {"op": "insert_stale", "b": "tmp", "evs": [{"ev": self.ev()} for _ in range(r.randrange(1, 4))]}
+
+
 class C01(Check):
     prop = "C01"
     level = "exploration"
@@ -194,7 +214,7 @@ class C01(Check):
         "step the dump is compared with harness-held deep copies; non-trivial = at least one mutation of a held "
         "reference executed after a write; distinct = (backend, op-kind sequence)"
     )
-    expected_probes = ["mutate_event_passed_in", "mutate_event_handed_out", "mutate_metadata_passed_in", "mutate_metadata_handed_out", "restart_clean", "bulk_insert", "events_read_back", "offset_nonzero", "us_not_ms_aligned", "year_2100", "nested_data", "bulk_same_object_twice"]
+    expected_probes = ["mutate_event_passed_in", "mutate_event_handed_out", "mutate_metadata_passed_in", "mutate_metadata_handed_out", "restart_clean", "bulk_insert", "events_read_back", "offset_nonzero", "us_not_ms_aligned", "year_2100", "nested_data", "bulk_same_object_twice", "observation_deferred", "insert_through_stale_handle_checked"]
     assumptions = ["restarts are clean (explicit flush before close): what survives an exit without shutdown is C06's subject"]
 
     def make_world(self, run, rundir):
@@ -216,17 +236,22 @@ class C01(Check):
             parties.append(actors.Editor(rs["edit%d" % k], cfg, b))
             parties.append(actors.Reader(rs["read%d" % k], cfg, b))
         parties.append(Adversary(rs["adv"], cfg))
+        parties.append(Rejecter(rs["rej"], cfg))
+        defer = r.random() < 0.3
         parties.append(Describer(rs["desc"], cfg, buckets))
         # restarts in this check are clean ones: whether buffered writes survive an exit without shutdown is
         # C06's subject (a store whose reads do not flush would otherwise look like it corrupts events)
         parties.append(actors.Operator(rs["oper"], {"dirty_p": 0.0}))
-        weights = {"importer": 2.0, "editor": 0.7, "reader": 1.0, "adversary": 2.5, "describer": 0.6, "operator": 0.2}
+        weights = {"importer": 2.0, "editor": 0.7, "reader": 1.0, "adversary": 2.5, "describer": 0.6, "operator": 0.2, "rejecter": 0.15}
+        if defer:
+            weights.update(importer=3.0, rejecter=0.8, reader=0.5)
         nsteps = r.choice([3, 6, 10, 20, 40] + ([80, 160] if tier == "thorough" else []))
         steps += actors.schedule(rs["sched"], parties, weights, nsteps)
-        return {"backend": backend, "steps": steps, "lat": lat}
+        return {"backend": backend, "steps": steps, "lat": lat, "defer": defer}
 
     def start(self, world, run):
         super().start(world, run)
+        self._defer = bool(run.get("defer"))
         self.model = {}
         self.meta = {}
         self.wrote = False
@@ -302,8 +327,19 @@ class C01(Check):
                 self._nt = True
             self._cmp(world, op, alias_kind=kind)
             return
-        if exc is not None and op not in ("mutate",):
+        if exc is not None and op not in ("mutate", "insert_stale"):
             raise Violation("fidelity_data", "%s raised %r" % (op, exc), {"op": op})
+        if op == "insert_stale":
+            pr["insert_through_stale_handle_checked"] += 1
+            if self._defer:
+                return  # no read now: whatever is buffered stays buffered; the next observed step compares
+            self._cmp(world, op)
+            return
+        if op == "delete_bucket":
+            self.model.pop(b, None)
+            self.meta.pop(b, None)
+            world.refresh_view()
+            return
         if op == "create":
             from checks.c05 import C05
 
@@ -321,6 +357,9 @@ class C01(Check):
                 raise Violation("id_unique", "insert returned %s; id missing or already live in the bucket" % short(ret and ret.id), {"op": op})
             mb[ret.id] = expect_tuple(step["ev"])
             self._probe_event(world, step["ev"])
+            if self._defer:
+                pr["observation_deferred"] += 1
+                return  # deferred observation: no read after this insert (a read would flush)
             got = world.bucket(b).get_by_id(ret.id)
             if got is None or obs_event(got)[1:] != mb[ret.id]:
                 g = got and obs_event(got)[1:]
